@@ -3462,3 +3462,8 @@ where
         .collect::<Vec<_>>()
         .join(", ")
 }
+
+#[cfg(kani)]
+pub(crate) mod verif {
+    include!(concat!(env!("LIBP2P_VERIF"), "/hooks/kad_behaviour.rs"));
+}
